@@ -655,6 +655,108 @@ def batched_vs_single(run, rng, thorough):
         set_threads(4)
 
 
+# --------------------------------------------------------------------------
+# description invariance: the same crystal with relabelled (left-handed / sheared) lattice vectors
+# --------------------------------------------------------------------------
+
+def relabel_stream(run, rng, thorough):
+    import phonopy
+
+    Ms = ["swap12", "negate3", "invert", "shear", "cyclic"]
+    todo = [(rng.choice(["cscl", "nacl_prim", "zincblende_prim", "hcp", "wurtzite", "triclinic", "mono_P"]), rng.choice(Ms[:3]), rng.choice([None, "wang", "gonze"])),
+            (rng.choice(["wurtzite", "nacl_prim", "zincblende_prim"]), rng.choice(Ms), rng.choice(["wang", "gonze"]))]
+    if thorough:
+        todo += [(rng.choice(["cscl", "hcp", "triclinic", "mono_P", "rhombo"]), rng.choice(Ms), rng.choice([None, "wang", "gonze"])) for _ in range(4)]
+    n_lh = 0
+    for name, mname, nac in todo:
+        M = np.array(gen.UNIMODULAR[mname])
+        cell0, _ = gen.make_cell(name)
+        cell1, qmap, smap = gen.relabelled_cell(cell0, M)
+        sm0 = np.diag(rng.choice([[2, 1, 1], [1, 2, 1], [1, 1, 2]]))
+        phs = []
+        for cell, sm in ((cell0, sm0), (cell1, smap(sm0))):
+            ph = phonopy.Phonopy(cell, supercell_matrix=sm, primitive_matrix="P", log_level=0)
+            ph.force_constants = gen.pair_fc(ph.supercell, 1.45 * nn_distance(ph.primitive))
+            if nac:
+                nums = ph.primitive.numbers
+                zmin = min(nums)
+                npos_, nneg_ = sum(1 for n_ in nums if n_ == zmin), sum(1 for n_ in nums if n_ != zmin)
+                z = np.array([np.diag([1.9, 1.9, 2.6]) * (1.0 if n_ == zmin else -float(npos_) / max(nneg_, 1)) for n_ in nums])
+                ph.nac_params = {"born": z, "dielectric": np.diag([3.1, 3.1, 4.4]), "factor": 14.4, "method": nac}
+            phs.append(ph)
+        ph0, ph1 = phs
+        lh = float(ph1.primitive.volume) < 0
+        n_lh += lh
+        fac = ph1.unit_conversion_factor
+        info0 = dict(cell=name, relabelling=mname, M=M.tolist(), det=int(round(np.linalg.det(M))), left_handed=bool(lh), supercell_original=sm0.tolist(), nac=nac)
+        run.count("relabelled description %s (volume %s 0)" % (mname, "<" if lh else ">"))
+        qs0 = np.array([[rng.randint(1, 7) / 16.0 * rng.choice([-1, 1]) for _ in range(3)] for _ in range(3)])
+        qs1 = np.array([qmap(q) for q in qs0])
+        d0 = np.array(qs0[0])       # an approach direction for Gamma
+        for build in ("omp", "ser"):
+            switch_build(build)
+            info = dict(info0, build=build)
+            # ---- (A) the access-path oracle ON the relabelled description
+            ref1 = Reference(ph1)
+            ph1.run_qpoints(qs1, with_eigenvectors=True, with_group_velocities=True, with_dynamical_matrices=True)
+            rq = dict(ph1.get_qpoints_dict())
+            path1 = [list(qs1[0] + (qs1[1] - qs1[0]) * t / 3.0) for t in range(4)]
+            ph1.run_band_structure([path1], with_eigenvectors=True, with_group_velocities=True)
+            rb_ = ph1.get_band_structure_dict()
+            rb = dict(frequencies=rb_["frequencies"][0], eigenvectors=rb_["eigenvectors"][0], group_velocities=rb_["group_velocities"][0])
+            ph1.run_mesh([3, 3, 3], is_gamma_center=True, with_eigenvectors=True, with_group_velocities=True)
+            rm = dict(ph1.get_mesh_dict())
+            ph1.init_mesh([3, 3, 3], is_gamma_center=True, with_eigenvectors=True, use_iter_mesh=True)
+            it = [(np.array(f_), np.array(v_)) for f_, v_ in ph1.mesh]
+            ri = dict(frequencies=[x[0] for x in it], eigenvectors=[x[1] for x in it])
+            for pname, res, qpts in (("qpoints", rq, qs1), ("band", rb, np.array(path1)), ("mesh", rm, np.array(rm["qpoints"])), ("itermesh", ri, np.array(rm["qpoints"]))):
+                for i in range(min(len(qpts), 4)):
+                    lab = label_row(pname, res, i, ref1.at(qpts[i]), None, fac)
+                    run.count("relabelled access-path rows", section="oracle")
+                    run.case(("relabel-path", name, mname, nac, build, pname, i), nontrivial=bool(lh))
+                    if "other" in lab or "dm=V" in lab:
+                        run.violation("Phonopy.%s" % pname, "paths-differ-on-relabelled-cell",
+                                      "on a %s description of the crystal the %s path disagrees with the dynamical-matrix object (%s)" % ("left-handed" if lh else "relabelled", pname, lab),
+                                      dict(info, path=pname, q=np.array(qpts[i]).tolist()))
+            # ---- (B) the same physical quantities in both descriptions
+            ph0.run_qpoints(qs0, with_group_velocities=True, with_dynamical_matrices=True)
+            r0 = ph0.get_qpoints_dict()
+            for i in range(len(qs0)):
+                run.count("spectrum at qmap(q) comparisons", section="oracle")
+                if not _close(_lam(rq["frequencies"][i], fac), _lam(r0["frequencies"][i], fac)):
+                    run.violation("Phonopy.run_qpoints", "spectrum-depends-on-description",
+                                  "frequencies at qmap(q) of the %s description differ from the original description (max %.3g THz)" % ("left-handed" if lh else "relabelled", float(np.abs(np.array(rq["frequencies"][i]) - np.array(r0["frequencies"][i])).max())),
+                                  dict(info, q=qs0[i].tolist(), q_relabelled=qs1[i].tolist()))
+                elif not _close(np.asarray(rq["dynamical_matrices"][i]), np.asarray(r0["dynamical_matrices"][i])):
+                    run.violation("Phonopy.run_qpoints", "dynmat-depends-on-description", "Cartesian dynamical matrix at qmap(q) differs between the two descriptions", dict(info, q=qs0[i].tolist()))
+                elif not _close(np.asarray(rq["group_velocities"][i]), np.asarray(r0["group_velocities"][i]), scale=max(1.0, float(np.abs(r0["group_velocities"][i]).max()))):
+                    f_ = np.sort(np.asarray(r0["frequencies"][i]))
+                    if np.diff(f_).min() > 1e-4:      # Cartesian group velocities are unique only for non-degenerate bands
+                        run.violation("Phonopy.run_qpoints", "gv-depends-on-description", "Cartesian group velocities at qmap(q) differ between the two descriptions", dict(info, q=qs0[i].tolist()))
+            # Gamma with an approach direction (same Cartesian direction in both descriptions)
+            if nac:
+                ph0.run_qpoints([[0, 0, 0]], nac_q_direction=d0)
+                ph1.run_qpoints([[0, 0, 0]], nac_q_direction=qmap(d0))
+                a_, b_ = ph0.get_qpoints_dict()["frequencies"][0], ph1.get_qpoints_dict()["frequencies"][0]
+                run.count("Gamma with direction across descriptions", section="oracle")
+                if not _close(_lam(b_, fac), _lam(a_, fac)):
+                    run.violation("Phonopy.run_qpoints", "spectrum-depends-on-description", "LO-TO split frequencies at Gamma (same Cartesian approach direction) differ between the descriptions by %.3g THz" % float(np.abs(np.array(a_) - np.array(b_)).max()),
+                                  dict(info, q=[0, 0, 0], direction=d0.tolist()))
+            # Gamma-centred odd mesh: weights sum and mesh average of the eigenvalues
+            ph0.run_mesh([3, 3, 3], is_gamma_center=True)
+            m0 = ph0.get_mesh_dict()
+            w0, w1 = np.array(m0["weights"], dtype=float), np.array(rm["weights"], dtype=float)
+            avg0 = (w0[:, None] * _lam(m0["frequencies"], fac)).sum() / w0.sum()
+            avg1 = (w1[:, None] * _lam(rm["frequencies"], fac)).sum() / w1.sum()
+            run.count("mesh averages across descriptions", section="oracle")
+            if w0.sum() != w1.sum() or abs(avg0 - avg1) > 1e-9 * max(1.0, abs(avg0)):
+                run.violation("Phonopy.run_mesh", "mesh-average-depends-on-description", "weights sum / mesh average of the eigenvalues on a Gamma-centred 3x3x3 mesh differ between the descriptions (%r vs %r)" % (avg0, avg1), info)
+    run.cov["oracle"]["relabelled cases with negative volume"] = int(n_lh)
+    if n_lh == 0:
+        run.broke("harness", "no left-handed description was generated")
+    switch_build("omp")
+
+
 def main(run):
     rng = run.rng
     thorough = run.tier == "thorough"
@@ -930,6 +1032,9 @@ def main(run):
 
     # ---------------- Gamma with NAC per path, group-velocity perturbation, writers' field lists
     gamma_and_writers(run, rng, thorough, multi_lines, multi_expect)
+
+    # ---------------- description invariance (left-handed / sheared lattice vectors)
+    relabel_stream(run, rng, thorough)
 
     # ---------------- batched q-points (threads) vs one q at a time
     batched_vs_single(run, rng, thorough)
